@@ -493,3 +493,72 @@ def argx(ctx, pid):
                 % (util.norm_src(c_)[:70], p, g.name, b, b, util.norm_src(other)[:30]))
     if not bad:
         ctx.ok("argument-roles", "trie/", "%d argument bindings at package-internal calls in scope: no parameter receives a variable named like a sibling parameter that is bound differently" % n, nontrivial=bool(n))
+
+
+# ---------------------------------------------------------------------------
+# MUTDEF  a mutable default argument that is stored, handed out or modified is state shared between calls
+# ---------------------------------------------------------------------------
+_COPYING = {"len", "dict", "list", "tuple", "set", "frozenset", "sorted", "iter", "enumerate", "isinstance", "bool", "any", "all", "sum", "min", "max",
+            "reversed", "zip", "map", "filter", "repr", "str", "bytes", "type", "id"}
+_MUTATORS = {"append", "extend", "insert", "pop", "remove", "clear", "update", "setdefault", "add", "discard", "popitem", "sort", "reverse", "appendleft"}
+
+
+def _mutable_default(d):
+    if isinstance(d, (ast.Dict, ast.List, ast.Set, ast.ListComp, ast.DictComp, ast.SetComp)):
+        return True
+    if isinstance(d, ast.Call):
+        nm = d.func.attr if isinstance(d.func, ast.Attribute) else (d.func.id if isinstance(d.func, ast.Name) else "")
+        return nm in ("dict", "list", "set", "defaultdict", "OrderedDict", "bytearray", "deque", "SortedSet", "Counter")
+    return False
+
+
+@rule("MUTDEF", ["C01", "C02", "C03", "C04", "C05", "C06", "C07", "C08", "C10", "C11", "C12", "C13", "C14", "C15", "C16", "C17", "C18"])
+def mutdef(ctx, pid):
+    """Default values are evaluated once.  A parameter whose default is a mutable container and that is stored in
+    an object, returned, yielded, modified in place or handed to code that may keep it is one object shared by
+    every call that omits the argument: what one call (or one trie / cache / iterator) puts there, the next sees."""
+    from ..core import prop_scope
+    scope = prop_scope(pid)
+    n = 0
+    bad = None
+    for f in util.all_functions(ctx, include_tools=False):
+        if scope is not None and f.module.rel not in scope:
+            continue
+        for pn, d in f.defaults().items():
+            n += 1
+            if not _mutable_default(d):
+                continue
+            names = {pn}
+            for s_ in walk_shallow(f.node):
+                if isinstance(s_, ast.Assign) and isinstance(s_.value, ast.Name) and s_.value.id in names:
+                    names |= {t.id for t in s_.targets if isinstance(t, ast.Name)}
+            why = None
+            for x in walk_shallow(f.node):
+                if isinstance(x, (ast.Assign, ast.AnnAssign)) and getattr(x, "value", None) is not None:
+                    tg = x.targets if isinstance(x, ast.Assign) else [x.target]
+                    if any(isinstance(t, (ast.Attribute, ast.Subscript)) for t in tg) and any(isinstance(y, ast.Name) and y.id in names for y in ast.walk(x.value)):
+                        why = why or (x, "is stored in an object")
+                    if any(isinstance(t, ast.Subscript) and isinstance(t.value, ast.Name) and t.value.id in names for t in tg):
+                        why = why or (x, "is written to")
+                elif isinstance(x, ast.AugAssign) and isinstance(x.target, ast.Name) and x.target.id in names:
+                    why = why or (x, "is modified in place")
+                elif isinstance(x, ast.Delete) and any(isinstance(t, ast.Subscript) and isinstance(t.value, ast.Name) and t.value.id in names for t in x.targets):
+                    why = why or (x, "is modified in place")
+                elif isinstance(x, (ast.Return, ast.Yield)) and x.value is not None and any(isinstance(y, ast.Name) and y.id in names for y in ast.walk(x.value)) \
+                        and not (isinstance(x.value, ast.Call) and isinstance(x.value.func, ast.Name) and x.value.func.id in _COPYING):
+                    why = why or (x, "is handed out to the caller")
+                elif isinstance(x, ast.Call):
+                    if isinstance(x.func, ast.Attribute) and isinstance(x.func.value, ast.Name) and x.func.value.id in names and x.func.attr in _MUTATORS:
+                        why = why or (x, "is modified in place")
+                    elif not (isinstance(x.func, ast.Name) and x.func.id in _COPYING) and \
+                            any(isinstance(a, ast.Name) and a.id in names for a in list(x.args) + [k.value for k in x.keywords]):
+                        why = why or (x, "is passed on to code that may keep or modify it")
+            if why is not None:
+                bad = bad or (f, pn, d, why)
+    c = "no-shared-mutable-default:%s" % pid
+    if bad:
+        f, pn, d, (node, what) = bad
+        ctx.bad(c, f.loc(node), "parameter `%s` of %s defaults to the mutable `%s` and %s: the one default object is shared by every call that omits the argument"
+                % (pn, fkey(f), ast.unparse(d)[:30], what), witness={"function": f.qual, "parameter": pn})
+    else:
+        ctx.ok(c, "trie/", "no default argument is a mutable container that is stored, handed out or modified (%d defaults looked at)" % n, nontrivial=n > 0)
